@@ -16,8 +16,8 @@ from . import render_common as RC
 from .common import Violation, run_children
 
 PROP = "C08"
-LEAN_TARGETS = ["Props.C08", "driver"]
-AUDIT_IMPORTS = ["Props.C08"]
+LEAN_TARGETS = ["Props.C08", "Proofs.RenderTab", "driver"]
+AUDIT_IMPORTS = ["Props.C08", "Proofs.RenderTab"]
 NS = "Pysersic.Props.C08."
 OBLIGATIONS = [NS + t for t in [
     "sersic2d_flux_smul", "gaussPixel_scale", "gaussFourier_scale", "pointFourier_flux_smul",
@@ -25,7 +25,8 @@ OBLIGATIONS = [NS + t for t in [
     "pointsource_flux_smul", "doublesersic_is_sum", "sersic_exp_is_sum", "sersic_pointsource_is_sum",
     "exp_is_sersic_n1", "dev_is_sersic_n4", "repo_profile_types", "profileOf_flux_smul", "profile_flux_smul",
     "image_flux_smul", "zero_flux_zero", "renderForModel_eq_sum",
-]] + ["Pysersic.Render.combineScene_add", "Pysersic.Render.combineScene_smul", "Pysersic.Render.combineScene_zero"]
+]] + ["Pysersic.Render.combineScene_add", "Pysersic.Render.combineScene_smul", "Pysersic.Render.combineScene_zero",
+     "Pysersic.Render.sceneArr_eq", "Pysersic.Render.tabI_get", "Pysersic.Render.tabF_get"]
 MIRRORED_FILES = ["pysersic/rendering.py"]
 ASSUMPTIONS = [
     "jnp.fft.rfft2/irfft2 are modelled as the explicit DFT sums (validated by the tie at 1e-9 of the peak in float64)",
